@@ -626,6 +626,9 @@ class UnionProxy:
     def __len__(self) -> int:
         return len(self.__target__.dumps())
 
+    def __bool__(self) -> bool:
+        return bool(self.__target__)
+
     def __bytes__(self) -> bytes:
         return self.__target__.dumps()
 
